@@ -9,9 +9,25 @@ ap = argparse.ArgumentParser()
 ap.add_argument('--patches', default='')
 ap.add_argument('--checks', default='')
 ap.add_argument('--out', default=os.path.join(HERE, 'findings', 'neutral_matrix.json'))
+ap.add_argument('--relevant', action='store_true')   # only the checks whose code a patch touches
 ap.add_argument('--shard', default='')   # i/n: every n-th patch starting at i
 a = ap.parse_args()
 ALL = ['C%02d' % i for i in range(1, 21)]
+# which checks drive the code of which module hard enough to notice a change in it
+RELEVANT = {
+ 'marshal': ['C01', 'C02', 'C03', 'C05', 'C18', 'C19', 'C20'],
+ 'message': ['C02', 'C03', 'C04', 'C05', 'C08', 'C10', 'C14', 'C18', 'C20'],
+ 'protocol': ['C02', 'C04', 'C05', 'C06', 'C07', 'C20'],
+ 'authentication': ['C06', 'C07', 'C09'],
+ 'client': ['C08', 'C09', 'C11', 'C12', 'C13'],
+ 'objects': ['C09', 'C10', 'C11', 'C12', 'C15', 'C16', 'C17'],
+ 'bus': ['C02', 'C03', 'C05', 'C11', 'C13', 'C14'],
+ 'router': ['C12', 'C14'],
+ 'interface': ['C15', 'C17', 'C19', 'C10'],
+ 'introspection': ['C11', 'C15', 'C16'],
+ 'endpoints': ['C09'],
+ 'error': ['C08', 'C10', 'C13'],
+}
 checks = a.checks.split(',') if a.checks else ALL
 patches = sorted(glob.glob(os.path.join(HERE, 'neutral', '*', 'patch.diff')))
 if a.patches:
@@ -33,7 +49,14 @@ try:
         b = subprocess.run([os.path.join(HERE, 'tools', 'baseline.py'), repo], stdout=subprocess.PIPE, text=True)
         row = result.setdefault(name, {})
         row['baseline'] = b.returncode == 0
-        for c in checks:
+        run_checks = checks
+        if a.relevant:
+            touched = set(re.findall(r'^\+\+\+ b/txdbus/(\w+)\.py', open(patch).read(), re.M))
+            rel = {name[:3]}
+            for f in touched:
+                rel |= set(RELEVANT.get(f, ALL))
+            run_checks = [c for c in checks if c in rel]
+        for c in run_checks:
             env = dict(os.environ, VERIF_REPO=repo)
             p = subprocess.run([os.path.join(HERE, 'check'), c], env=env, stdout=subprocess.PIPE,
                                stderr=subprocess.STDOUT, text=True)
@@ -44,7 +67,7 @@ try:
                 print('%-8s %s ALARM rc=%d %s\n          %s' % (name, c, p.returncode, '; '.join(sigs)[:200],
                                                                ' | '.join(w[:300] for w in whats)))
                 sys.stdout.flush()
-        print('%-8s baseline=%s alarms=%s' % (name, row['baseline'], [c for c in checks if row[c]['rc'] != 0]))
+        print('%-8s baseline=%s checks=%d alarms=%s' % (name, row['baseline'], len(run_checks), [c for c in run_checks if row[c]['rc'] != 0]))
         sys.stdout.flush()
         json.dump(result, open(a.out, 'w'), indent=1, sort_keys=True)
 finally:
